@@ -14,14 +14,38 @@ use std::sync::Mutex;
 
 pub struct P;
 
-/// A sink that drops the bytes and counts them.
+/// A sink that drops the bytes and counts them. It may accept only `cap` bytes per call
+/// (0 = everything) and answer every `intr`-th call with `Interrupted` (0 = never): both are
+/// legal behaviour of an `io::Write`, and a builder that holds back what the sink did not take
+/// at once would grow with the number of keys.
 pub struct DiscardSink {
     pub n: u64,
+    pub cap: usize,
+    pub intr: u64,
+    pub calls: u64,
+}
+impl DiscardSink {
+    /// the sink behaviour is a function of the case's seed: a quarter each of
+    /// take-everything, 1 byte per call, 8 bytes per call, 7 bytes per call + interruptions
+    pub fn for_seed(seed: u64) -> DiscardSink {
+        let (cap, intr) = match seed % 4 {
+            0 => (0, 0),
+            1 => (1, 0),
+            2 => (8, 0),
+            _ => (7, 5),
+        };
+        DiscardSink { n: 0, cap, intr, calls: 0 }
+    }
 }
 impl io::Write for DiscardSink {
     fn write(&mut self, buf: &[u8]) -> io::Result<usize> {
-        self.n += buf.len() as u64;
-        Ok(buf.len())
+        self.calls += 1;
+        if self.intr > 0 && self.calls % self.intr == 0 {
+            return Err(io::Error::new(io::ErrorKind::Interrupted, "interrupted"));
+        }
+        let k = if self.cap == 0 { buf.len() } else { buf.len().min(self.cap) };
+        self.n += k as u64;
+        Ok(k)
     }
     fn flush(&mut self) -> io::Result<()> {
         Ok(())
@@ -240,7 +264,7 @@ pub fn measure_build(c: &Cfg, n: u64) -> Meas {
     mem::reset();
     let mut m = match c.kind {
         "set" | "map" => {
-            let mut b = Builder::verif_new_type_with_cache(DiscardSink { n: 0 }, 0, c.rows, c.cols).unwrap();
+            let mut b = Builder::verif_new_type_with_cache(DiscardSink::for_seed(c.seed), 0, c.rows, c.cols).unwrap();
             // The hook builds the default 10000 x 2 registry first and then replaces it (a transient
             // of 960000 bytes that `Builder::new` does not have): the peak is taken from the moment
             // the hook returns, starting at the bytes the finished builder holds.
@@ -270,7 +294,7 @@ pub fn measure_build(c: &Cfg, n: u64) -> Meas {
         }
         "SetBuilder" => {
             assert!((c.rows, c.cols) == (crate::core::drows(), crate::core::dcols()));
-            let mut b = fst::SetBuilder::new(DiscardSink { n: 0 }).unwrap();
+            let mut b = fst::SetBuilder::new(DiscardSink::for_seed(c.seed)).unwrap();
             let peak_new = mem::peak();
             for _ in 0..n {
                 if b.insert(g.next()).is_err() {
@@ -282,7 +306,7 @@ pub fn measure_build(c: &Cfg, n: u64) -> Meas {
         }
         "MapBuilder" => {
             assert!((c.rows, c.cols) == (crate::core::drows(), crate::core::dcols()));
-            let mut b = fst::MapBuilder::new(DiscardSink { n: 0 }).unwrap();
+            let mut b = fst::MapBuilder::new(DiscardSink::for_seed(c.seed)).unwrap();
             let peak_new = mem::peak();
             for i in 0..n {
                 if b.insert(g.next(), value_of(i)).is_err() {
@@ -363,6 +387,7 @@ impl Prop for P {
                                 continue;
                             }
                             let seed = 1 + rng.below(1 << 30);
+                            stats.bump(&format!("sink_take_all_1_8_7intr_{}", seed % 4));
                             cases.push(format!("build {} {} {} {} {} {} {} {}", kind, fam, rows, cols, n, fan, kl, seed));
                             stats.bump(&format!("build_n{}", n));
                             stats.bump(&format!("build_family_{}", fam));
@@ -379,6 +404,7 @@ impl Prop for P {
                             continue;
                         }
                         let seed = 1 + rng.below(1 << 30);
+                        stats.bump(&format!("sink_take_all_1_8_7intr_{}", seed % 4));
                         cases.push(format!("build {} {} {} {} {} {} {} {}", kind, fam, dflt.0, dflt.1, n, fan, kl, seed));
                         stats.bump(&format!("build_n{}", n));
                         stats.bump(&format!("build_family_{}", fam));
@@ -404,14 +430,17 @@ impl Prop for P {
                 for &(fan, kl) in flat_shapes {
                     let seed = 1 + rng.below(1 << 30);
                     if hooked(kind) {
+                        stats.bump(&format!("sink_take_all_1_8_7intr_{}", seed % 4));
                         cases.push(format!("sat {} {} 100 2 {} {} {} {} {}", kind, fam, s1, s2, fan, kl, seed));
                         stats.bump(&format!("sat_family_{}", fam));
                     }
                     if hooked(kind) || fan == 4 {
+                        stats.bump(&format!("sink_take_all_1_8_7intr_{}", seed % 4));
                         cases.push(format!("sat {} {} {} {} {} {} {} {} {}", kind, fam, dflt.0, dflt.1, d1, d2, fan, kl, seed));
                         stats.bump(&format!("sat_family_{}", fam));
                     }
                     if tier == Tier::Thorough && fan == 4 {
+                        stats.bump(&format!("sink_take_all_1_8_7intr_{}", seed % 4));
                         cases.push(format!("sat {} {} {} {} 1000000 10000000 {} {} {}", kind, fam, dflt.0, dflt.1, fan, kl, seed));
                         stats.bump(&format!("sat_family_{}", fam));
                     }
@@ -423,6 +452,7 @@ impl Prop for P {
                             continue;
                         }
                         let seed = 1 + rng.below(1 << 30);
+                        stats.bump(&format!("sink_take_all_1_8_7intr_{}", seed % 4));
                         cases.push(format!("sat {} {} 10 2 {} {} {} {} {}", kind, fam, s1, s2, fan, kl, seed));
                         stats.bump(&format!("sat_family_{}", fam));
                         // (larger caches with fan-out > 4 creep towards the bound for a long time:
